@@ -504,3 +504,24 @@ def orphan_routes():
                                ("eof", 2), ("eof", 0) if ending != "owner-leaves" else ("quiesce",), ("eof", 3), ("quiesce",)]
                     out.append(Scenario(st, name="orphan-routes-%s-%s-%s-%s" % (kind, "other" if keep_other else "last", ending, tr)))
     return out
+
+
+def huge_timeouts():
+    """timeouts at and beyond the largest value whose nanoseconds fit into 64 bits: the request is answered (refused), never
+    dropped.  Outside the daemon model's domain (monitor-only, see run_scenario)."""
+    out = []
+    vals = [18446744073.0, 18446744074.0, 1.8446744073709552e10, 2e10, 1e11, 1e19, 1e300, 1.7976931348623157e308]
+    for i, v in enumerate(vals):
+        for tr in ("raw", "ws"):
+            st = [("connect", 0, "raw", "local6"), ("connect", 1, tr, "remote6"),
+                  ("msg", 0, obj(method="add", params=obj(path="big", value=1, timeout=v), id=1)),
+                  ("msg", 0, obj(method="add", params=obj(path="s", value=1), id=2)),
+                  ("msg", 0, obj(method="add", params=obj(path="m"), id=3)),
+                  ("msg", 1, obj(method="set", params=obj(path="s", value=2, timeout=v), id="r1")),
+                  ("msg", 1, obj(method="call", params=obj(path="m", timeout=v), id="r2")),
+                  ("msg", 1, obj(method="set", params=obj(path="s", value=3, timeout=v))),
+                  ("msg", 1, obj(method="get", params=obj(), id=4)),
+                  ("msg", 1, obj(method="info", id=5)),
+                  ("quiesce",), ("eof", 1), ("eof", 0), ("quiesce",)]
+            out.append(Scenario(st, name="outside-model:huge-timeout-%d-%s" % (i, tr)))
+    return out
